@@ -1079,7 +1079,7 @@ func (ctx *Context) evaluate() {
 			if !doubleCrossCheck(ctx, addLine, dcState.pool, dcState.points) {
 				return
 			}
-			success, _, _, detailText := RollDoubleCross(nil, addLine, dcState.pool, dcState.points, getRollMode())
+			success, _, _, detailText := RollDoubleCross(ctx.RandSrc, addLine, dcState.pool, dcState.points, getRollMode())
 			ret := NewIntVal(success)
 			details[len(details)-1].Ret = ret
 			details[len(details)-1].Text = detailText
